@@ -33,6 +33,10 @@ pub enum InjKind {
     /// really-sent frame whose nonce makes the group's parity wrong; the lower claims (selected by `low`) are
     /// really-sent frames with the right parity among themselves
     FullWidth { unknown: bool, low: u32 },
+    /// a group over frame ids that differ from really-sent, still-logged frames by a multiple of a power of two
+    /// (2^16, 2^20, 2^24, 2^31): never sent, but equal to sent ids under any narrower arithmetic. The nonce is the
+    /// parity of the frames it would alias.
+    Alias { back: u16, bitfield: u32, shift: u8, k: u8 },
 }
 
 #[derive(Clone, Debug, Serialize, Deserialize)]
@@ -60,6 +64,7 @@ fn kind_strategy() -> impl Strategy<Value = InjKind> {
         5 => (prop_oneof![2 => 0u16..10, 2 => 0u16..60, 1 => 0u16..300], prop_oneof![3 => Just(0u32), 2 => 1u32..30_000, 1 => 30_000u32..2_000_000]).prop_map(|(nth, delay_us)| InjKind::DupAck { nth, delay_us }),
         5 => (prop_oneof![2 => Just(0xFFFFu16), 1 => 0u16..10, 1 => 0u16..60], prop_oneof![Just(u32::MAX), any::<u32>()]).prop_map(|(nth, sel)| InjKind::ExtendAck { nth, sel }),
         3 => (any::<bool>(), prop_oneof![Just(1u32), Just(0x7FFF_FFFFu32), any::<u32>()]).prop_map(|(unknown, low)| InjKind::FullWidth { unknown, low }),
+        3 => (prop_oneof![3 => 0u16..4, 1 => any::<u16>()], prop_oneof![Just(1u32), Just(3u32), Just(7u32), any::<u32>()], prop_oneof![Just(16u8), Just(20u8), Just(24u8), Just(31u8)], 1u8..4).prop_map(|(back, bitfield, shift, k)| InjKind::Alias { back, bitfield: bitfield | 1, shift, k }),
     ]
 }
 
@@ -221,6 +226,27 @@ fn run_once(sc: &PairScenario, inj: Option<&[Injection]>) -> RunOut {
                         classes.push(if *unknown { "full_width_last_unknown" } else { "full_width_wrong_parity" });
                         vec![AckGroup { base_id, bitfield: 0x8000_0000 | lowbits, nonce: p_low }]
                     }
+                    InjKind::Alias { back, bitfield, shift, k } => {
+                        if obs.sent[e].is_empty() {
+                            continue;
+                        }
+                        let n_sent = obs.sent[e].len();
+                        let idx = n_sent - 1 - (*back as usize).min(n_sent - 1);
+                        let real_base = obs.sent[e][idx].0;
+                        let offset = (*k as u32).wrapping_shl(*shift as u32);
+                        if offset == 0 {
+                            continue;
+                        }
+                        // parity of the really-sent frames the group would alias (unsent positions count as 0)
+                        let mut nonce = false;
+                        for b in 0..32u32 {
+                            if bitfield & (1 << b) != 0 {
+                                nonce ^= nonce_of(real_base.wrapping_add(b)).unwrap_or(false);
+                            }
+                        }
+                        classes.push("alias_of_sent_frames");
+                        vec![AckGroup { base_id: real_base.wrapping_add(offset), bitfield: *bitfield, nonce }]
+                    }
                     InjKind::DupAck { .. } | InjKind::ExtendAck { .. } => continue,
                     InjKind::Stale { behind, bitfield } => {
                         classes.push("stale_behind");
@@ -312,7 +338,7 @@ impl Check for C15 {
     }
 
     fn rule(&self) -> String {
-        "case = SimPair scenario + list of injections; the scenario is run twice with identical clock and nonce streams, the second time additionally handing the senders, between ticks, ack frames that must be inert: genuine earlier ack groups replayed (any age), groups over really-sent frames with the nonce inverted (any bitfield, including ones that do not claim their own base frame), groups ahead of / far behind the frame log, groups mixing sent and never-sent ids, groups using all 32 positions whose last position alone makes them invalid (never-sent frame, or a sent frame whose nonce spoils the parity), network duplicates of genuine ack frames arriving right behind the original (same step interval) or up to 2 s later, and genuine ack frames whose groups additionally claim frames the sender has already seen acknowledged (repeated acknowledgements bundled with fresh ones; only frames still in the sender's log, with the nonce adjusted, never gaining a rate-limited frame); every forged frame carries the window bases of the latest genuine ack that endpoint handled, so it cannot move a window. Oracle: both runs emit byte-identical frames at identical virtual times and report identical rtt_s(), allowed rate, is_send_pending(), send_buffer_size() and queue lengths at every snapshot, and deliver identically. Non-trivial = at least one injected group referred to a frame sent within the last virtual second. Distinct = distinct serialised case.".into()
+        "case = SimPair scenario + list of injections; the scenario is run twice with identical clock and nonce streams, the second time additionally handing the senders, between ticks, ack frames that must be inert: genuine earlier ack groups replayed (any age), groups over really-sent frames with the nonce inverted (any bitfield, including ones that do not claim their own base frame), groups ahead of / far behind the frame log, groups mixing sent and never-sent ids, groups over ids that differ from really-sent frames by a multiple of 2^16 / 2^20 / 2^24 / 2^31 (with the parity of the frames they would alias), groups using all 32 positions whose last position alone makes them invalid (never-sent frame, or a sent frame whose nonce spoils the parity), network duplicates of genuine ack frames arriving right behind the original (same step interval) or up to 2 s later, and genuine ack frames whose groups additionally claim frames the sender has already seen acknowledged (repeated acknowledgements bundled with fresh ones; only frames still in the sender's log, with the nonce adjusted, never gaining a rate-limited frame); every forged frame carries the window bases of the latest genuine ack that endpoint handled, so it cannot move a window. Oracle: both runs emit byte-identical frames at identical virtual times and report identical rtt_s(), allowed rate, is_send_pending(), send_buffer_size() and queue lengths at every snapshot, and deliver identically. Non-trivial = at least one injected group referred to a frame sent within the last virtual second. Distinct = distinct serialised case.".into()
     }
 
     fn assumptions(&self) -> Vec<String> {
